@@ -31,4 +31,110 @@ let () = run_lines (fun toks ->
      | "mulpb" -> s (Model.mul_precomp_bZ sb sg cb p a.(0) a.(1))
      | "consts" -> s (Model.mOneZ sb sg cb p)
      | _ -> "UNKNOWN-OP")
+  | "fm" :: pe :: pc :: p :: op :: args ->
+    let pe = zs pe and pc = zs pc and p = zs p in
+    let a = Array.of_list (List.map zs args) in
+    let s = string_of_z in
+    (match op with
+     | "add" | "addin" -> s (Model.fm_add pe pc p a.(0) a.(1))
+     | "sub" -> s (Model.fm_sub pe pc p a.(0) a.(1))
+     | "subin" -> s (Model.fm_subin pe pc p a.(0) a.(1))
+     | "mul" | "mulin" -> s (Model.fm_mul pe pc p a.(0) a.(1))
+     | "neg" | "negin" -> s (Model.fm_neg pe pc p a.(0))
+     | "inv" | "invin" -> so s (Model.fm_inv pe pc p fuel a.(0))
+     | "div" -> so s (Model.fm_div pe pc p fuel a.(0) a.(1))
+     | "divin" -> so s (Model.fm_divin pe pc p fuel a.(0) a.(1))
+     | "axpy" | "axpyin" -> s (Model.fm_axpy pe pc p a.(0) a.(1) a.(2))
+     | "axmy" -> s (Model.fm_axmy pe pc p a.(0) a.(1) a.(2))
+     | "axmyin" -> s (Model.fm_axmyin pe pc p a.(2) a.(0) a.(1))
+     | "maxpy" -> s (Model.fm_maxpy pe pc p a.(0) a.(1) a.(2))
+     | "maxpyin" -> s (Model.fm_maxpyin pe pc p a.(2) a.(0) a.(1))
+     | "reduce1" | "reduce2" -> s (Model.fm_reduce pe pc p a.(0))
+     | "isUnit" -> so string_of_bool (Model.fm_isUnit pe p fuel a.(0))
+     | _ -> "UNKNOWN-OP")
+  | "bf" :: pe :: p :: op :: args ->
+    let pe = zs pe and p = zs p in
+    let a = Array.of_list (List.map zs args) in
+    let s = string_of_z in
+    (match op with
+     | "add" | "addin" -> s (Model.bf_add pe p a.(0) a.(1))
+     | "sub" | "subin" -> s (Model.bf_sub pe p a.(0) a.(1))
+     | "mul" | "mulin" -> s (Model.bf_mul pe p a.(0) a.(1))
+     | "neg" | "negin" -> s (Model.bf_neg a.(0))
+     | "inv" | "invin" -> so s (Model.bf_inv pe p fuel a.(0))
+     | "div" | "divin" -> so s (Model.bf_div pe p fuel a.(0) a.(1))
+     | "axpy" -> s (Model.bf_axpy pe p a.(0) a.(1) a.(2))
+     | "axpyin" -> s (Model.bf_axpyin pe p a.(2) a.(0) a.(1))
+     | "axmy" | "axmyin" -> s (Model.bf_axmy pe p a.(0) a.(1) a.(2))
+     | "maxpy" | "maxpyin" -> s (Model.bf_maxpy pe p a.(0) a.(1) a.(2))
+     | "reduce1" | "reduce2" -> s (Model.bf_reduce pe p a.(0))
+     | "isUnit" -> so string_of_bool (Model.bf_isUnit pe p fuel a.(0))
+     | _ -> "UNKNOWN-OP")
+  | "bi" :: w :: p :: op :: args ->
+    let w = zs w and p = zs p in
+    let a = Array.of_list (List.map zs args) in
+    let s = string_of_z in
+    (match op with
+     | "add" | "addin" -> s (Model.bi_add w p a.(0) a.(1))
+     | "sub" | "subin" -> s (Model.bi_sub w p a.(0) a.(1))
+     | "mul" | "mulin" -> s (Model.bi_mul w p a.(0) a.(1))
+     | "neg" | "negin" -> s (Model.bi_neg w a.(0))
+     | "inv" | "invin" -> so s (Model.bi_inv w p fuel a.(0))
+     | "div" | "divin" -> so s (Model.bi_div w p fuel a.(0) a.(1))
+     | "axpy" | "axpyin" -> s (Model.bi_axpy w p a.(0) a.(1) a.(2))
+     | "axmy" | "axmyin" -> s (Model.bi_axmy w p a.(0) a.(1) a.(2))
+     | "maxpy" | "maxpyin" -> s (Model.bi_maxpy w p a.(0) a.(1) a.(2))
+     | "reduce1" | "reduce2" -> s (Model.bi_reduce w p a.(0))
+     | "isUnit" -> so string_of_bool (Model.bi_isUnit w p fuel a.(0))
+     | _ -> "UNKNOWN-OP")
+  | "ex" :: pe :: p :: op :: args ->
+    let pe = zs pe and p = zs p in
+    let a = Array.of_list (List.map zs args) in
+    let s = string_of_z in
+    (match op with
+     | "add" | "addin" -> s (Model.ex_add pe p a.(0) a.(1))
+     | "sub" | "subin" -> s (Model.ex_sub pe p a.(0) a.(1))
+     | "mul" | "mulin" -> s (Model.ex_mul pe p a.(0) a.(1))
+     | "neg" | "negin" -> s (Model.ex_neg pe p a.(0))
+     | "inv" | "invin" -> so s (Model.ex_inv pe p fuel a.(0))
+     | "div" -> so s (Model.ex_div pe p fuel a.(0) a.(1))
+     | "divin" -> so s (Model.ex_divin pe p fuel a.(0) a.(1))
+     | "axpy" | "axpyin" -> s (Model.ex_axpy pe p a.(0) a.(1) a.(2))
+     | "axmy" | "axmyin" -> s (Model.ex_axmy pe p a.(0) a.(1) a.(2))
+     | "maxpy" | "maxpyin" -> s (Model.ex_maxpy pe p a.(0) a.(1) a.(2))
+     | "reduce1" | "reduce2" -> s (Model.ex_reduce pe p a.(0))
+     | "isUnit" -> so string_of_bool (Model.ex_isUnit pe p fuel a.(0))
+     | _ -> "UNKNOWN-OP")
+  | "ru" :: w :: dbl :: p :: op :: args ->
+    let w = zs w and dbl = (dbl = "1") and p = zs p in
+    let a = Array.of_list (List.map zs args) in
+    let s = string_of_z in
+    (match op with
+     | "add" | "addin" -> s (Model.ru_add w p a.(0) a.(1))
+     | "sub" -> s (Model.ru_sub w p a.(0) a.(1))
+     | "subin" -> s (Model.ru_subin w p a.(0) a.(1))
+     | "mul" | "mulin" -> s (Model.ru_mul w dbl p a.(0) a.(1))
+     | "neg" | "negin" -> s (Model.ru_neg w p a.(0))
+     | "axpy" | "axpyin" -> s (Model.ru_axpy w dbl p a.(0) a.(1) a.(2))
+     | "axmy" | "axmyin" -> s (Model.ru_axmy w dbl p a.(0) a.(1) a.(2))
+     | "maxpy" -> s (Model.ru_maxpy w dbl p a.(0) a.(1) a.(2))
+     | "maxpyin" -> s (Model.ru_maxpyin w dbl p a.(2) a.(0) a.(1))
+     | "reduce1" | "reduce2" -> s (Model.ru_reduce p a.(0))
+     | "isUnit" -> so string_of_bool (Model.ru_isUnit w p fuel a.(0))
+     | _ -> "UNKNOWN-OP")
+  | "zz" :: p :: op :: args ->
+    let p = zs p in
+    let a = Array.of_list (List.map zs args) in
+    let s = string_of_z in
+    (match op with
+     | "add" | "addin" -> s (Model.zz_add p a.(0) a.(1))
+     | "sub" | "subin" -> s (Model.zz_sub p a.(0) a.(1))
+     | "mul" | "mulin" -> s (Model.zz_mul p a.(0) a.(1))
+     | "neg" | "negin" -> s (Model.zz_neg p a.(0))
+     | "axpy" | "axpyin" -> s (Model.zz_axpy p a.(0) a.(1) a.(2))
+     | "axmy" -> s (Model.zz_axmy p a.(0) a.(1) a.(2))
+     | "axmyin" -> s (Model.zz_axmyin p a.(2) a.(0) a.(1))
+     | "maxpy" | "maxpyin" -> s (Model.zz_maxpy p a.(0) a.(1) a.(2))
+     | "reduce1" | "reduce2" -> s (Model.zz_reduce p a.(0))
+     | _ -> "UNKNOWN-OP")
   | _ -> "BAD-LINE")
